@@ -145,7 +145,7 @@ type Streamer struct {
 	mu     sync.Mutex
 	opened []Opened
 	locals []*Stream
-	wg     sync.WaitGroup
+	active int
 }
 
 var errNoPeer = errors.New("memstream: no such peer")
@@ -168,9 +168,15 @@ func (t *Streamer) open(ctx context.Context, kind string, addr boson.Address, pr
 	t.mu.Lock()
 	t.locals = append(t.locals, local)
 	t.mu.Unlock()
-	t.wg.Add(1)
+	t.mu.Lock()
+	t.active++
+	t.mu.Unlock()
 	go func() {
-		defer t.wg.Done()
+		defer func() {
+			t.mu.Lock()
+			t.active--
+			t.mu.Unlock()
+		}()
 		f(context.Background(), remote)
 	}()
 	return local, nil
@@ -210,10 +216,14 @@ func (t *Streamer) Shutdown(wait time.Duration) {
 	for _, s := range ls {
 		_ = s.Reset()
 	}
-	done := make(chan struct{})
-	go func() { t.wg.Wait(); close(done) }()
-	select {
-	case <-done:
-	case <-time.After(wait):
+	deadline := time.Now().Add(wait)
+	for time.Now().Before(deadline) {
+		t.mu.Lock()
+		a := t.active
+		t.mu.Unlock()
+		if a == 0 {
+			return
+		}
+		time.Sleep(time.Millisecond)
 	}
 }
